@@ -95,11 +95,26 @@ def parse_reports(stdout):
 
 def run_shard(shard):
     """Run one process.  Returns dict(status, reports, rc, tail, wall)."""
-    exe = bin_path(shard["variant"], shard["pkg"])
-    cmd = [exe] + [str(a) for a in shard["args"]]
+    env = env_offline()
+    cwd = ROOT
+    if shard.get("miri"):
+        # the same monitor binary under the Miri interpreter (UB / data-race detection); the
+        # monitor scales its budgets down with --tier miri
+        # --release: Miri ignores the opt-level but takes debug-assertions / overflow-checks from the
+        # profile, so the monitors see the same arithmetic as in the native runs
+        cmd = ["cargo", "+nightly", "miri", "run", "--release", "--offline", "-p", shard["pkg"], "--target-dir",
+               os.path.join("target", "miri"), "--"] + [str(a) for a in shard["args"]]
+        flags = "-Zmiri-disable-isolation"
+        if shard.get("miri_seeds"):
+            flags += " -Zmiri-many-seeds=0..%d" % shard["miri_seeds"]
+        env["MIRIFLAGS"] = flags
+        cwd = HARNESS
+    else:
+        exe = bin_path(shard["variant"], shard["pkg"])
+        cmd = [exe] + [str(a) for a in shard["args"]]
     t0 = time.time()
     try:
-        p = subprocess.Popen(cmd, cwd=ROOT, env=env_offline(), stdout=subprocess.PIPE,
+        p = subprocess.Popen(cmd, cwd=cwd, env=env, stdout=subprocess.PIPE,
                              stderr=subprocess.PIPE, text=True, errors="replace",
                              start_new_session=True)
     except OSError as e:
@@ -115,6 +130,12 @@ def run_shard(shard):
         out, err = p.communicate()
         status = "timeout"
     reps = parse_reports(out)
+    if shard.get("miri") and status == "crash":
+        # Miri stops at the first undefined behaviour / data race with "error: Undefined Behavior: ..."
+        ub = [l for l in (err or "").splitlines() if l.startswith("error: Undefined Behavior") or "Data race detected" in l]
+        status = "miri-ub" if ub else "harness"
+        if ub:
+            err = "\n".join(ub[:3]) + "\n" + (err or "")[-3000:]
     return dict(status=status, reports=reps, rc=p.returncode, tail=(err or "")[-4000:],
                 wall=time.time() - t0, cmd=cmd, out_tail=(out or "")[-2000:] if not reps else "")
 
@@ -176,9 +197,9 @@ def run_check(pid, tier, seed, only_shards=None):
         s.setdefault("pkg", "units")
         s.setdefault("variant", "A")
         s.setdefault("timeout", 900 if tier == "quick" else 7200)
-        s["args"] = list(s["args"]) + ["--seed", str(derive_seed(seed, i)), "--tier", tier]
+        s["args"] = list(s["args"]) + ["--seed", str(derive_seed(seed, i)), "--tier", s.get("tier_arg", tier)]
     # build
-    needed = sorted(set((s["variant"], s["pkg"]) for s in shards))
+    needed = sorted(set((s["variant"], s["pkg"]) for s in shards if not s.get("miri")))
     for variant, pkg in needed:
         if not build(variant, pkg):
             write_evidence(pid, spec, tier, seed, None, time.time() - t0, status="build-failure")
@@ -218,7 +239,10 @@ def run_check(pid, tier, seed, only_shards=None):
                     "%s:%s" % (r.get("property"), v.get("sig")) for r in res["reports"] for v in r.get("violations", [])[:3])[:600])
                 violations.append((shard, dict(sig=shard["finding"], detail=detail + "\n" + res["tail"][-600:])))
             continue
-        if res["status"] in ("timeout", "watchdog"):
+        if res["status"] == "miri-ub":
+            first = res["tail"].splitlines()[0] if res["tail"] else "undefined behaviour"
+            violations.append((shard, dict(sig="miri:" + first[:120], detail=res["tail"][:3000])))
+        elif res["status"] in ("timeout", "watchdog"):
             harness_problems.append("watchdog fired (inconclusive): %s" % " ".join(res["cmd"][1:]))
         elif res["status"] == "harness":
             harness_problems.append("could not start: %s" % res["tail"])
